@@ -114,6 +114,17 @@ CLAIMED = {
         design='DESIGN.md §5 C05',
         note=NOTE_COMMON + 'Known findings F-12 (parameter kind TypeError) and F-31 (scalar subselect AttributeError). Domain errors raised while folding constants belong to C18.',
         technique='Lean 4 rule-by-rule proofs over the compile model + exhaustive type matrices + rule-enforcement oracle'),
+    'C17': dict(
+        text=('Lean theorems over the numberify model: row count, row order and per-row independence; every output row has one '
+              'cell per output column; plain columns are copied by an identity converter; naming `name (CUR)`; the Amount / '
+              'Position / Inventory cell laws (own currency -> (quantised) units, other currency / NULL / absent -> NULL, '
+              'inventory = sum over lots, zero -> NULL); the census keeps every contributed currency (no currency dropped) and '
+              'the per-column order is a permutation of the census keys sorted by the (count, currency) key. Tied to the code by '
+              'correspondence on random tables (all three amount-like kinds, lots, NULLs, formatter on/off) and conservation '
+              'oracles on the implementation (column sums = input units, no invented/lost currency, plain columns untouched).'),
+        design='DESIGN.md §5 C17',
+        note=NOTE_COMMON + 'DisplayFormatter.quantize is modelled as Decimal.quantize half-even to the currency\'s digits.',
+        technique='Lean 4 proof over the numberify model + differential correspondence + conservation oracles'),
 }
 
 PENDING_REASON = 'check under construction in this round (model or correspondence not yet registered); not claimed yet'
